@@ -115,6 +115,9 @@ class JSONListFormatter(SequenceFormatter):
         instances where a list contains a dict.
 
         """
+        # The edit of this node (if any) was already handled by the time a node printer like this one is called, so
+        # the parent must not apply it a second time:
+        kwargs.setdefault("with_edits", False)
         self.parent.print(*args, **kwargs)
 
 
@@ -160,6 +163,8 @@ class JSONDictFormatter(SequenceFormatter):
         instances where a dict contains a list.
 
         """
+        # (see JSONListFormatter.print_SequenceNode)
+        kwargs.setdefault("with_edits", False)
         self.parent.print(*args, **kwargs)
 
 
